@@ -79,9 +79,16 @@ def scenario(args):
                 s.op(f"net dup 0")
         nmsg = rng.randint(3, 10)
         model_lines = []
+        # ICE-TCP under back-pressure: tiny kernel buffers, large messages, the sender retries on WOULD_BLOCK
+        pressure = transport == "tcp" and rng.random() < 0.4
+        if pressure:
+            s.op(f"tcpbuf {rng.choice([8192, 16384, 32768])}")
+            nmsg = rng.randint(6, 12)
         for i in range(nmsg):
             kind = rng.choice(["random", "random", "stunlike", "stun-nofp", "rtp"])
-            if transport == "tcp":
+            if pressure:
+                n = rng.choice([70000, 0xF800 + 1, 2 * 0xF800 + 5, 30000, 65535, rng.randrange(20000, 130000)])
+            elif transport == "tcp":
                 n = rng.choice([1, 2, 100, 1400, 0xF7FF, 0xF800, 0xF801, 65535, rng.randrange(1, 65536), 2 * 0xF800 + 5, 3 * 0xF800])
             elif transport == "reliable":
                 n = rng.choice([1, 100, 1400, 5000, rng.randrange(1, 20000)])
@@ -90,6 +97,12 @@ def scenario(args):
             data = rand_payload(rng, n, kind)
             parts = split_buffers(rng, data)
             ev, st = s.op(f"send A 1 1 {hexs(parts)}")
+            tries = 0
+            while pressure and "ret -1" in st and "-27" in st and tries < 400:     # G_IO_ERROR_WOULD_BLOCK: nothing was taken
+                s.op("settle 200")
+                s.op("run 20")
+                ev, st = s.op(f"send A 1 1 {hexs(parts)}")
+                tries += 1
             if "ret 1" in st:
                 sent_msgs.append(data)
                 if transport == "tcp":
@@ -97,6 +110,10 @@ def scenario(args):
             elif "err" in st and transport != "reliable":
                 bad.append(("send-failed", f"send of {n} bytes returned {st}"))
             s.op(f"run {rng.choice([5, 50, 400])}")
+        if pressure:
+            for _ in range(6):          # kernel TCP with tiny buffers needs real time to drain
+                s.op("settle 3000")
+                s.op("run 200")
         s.op("run 3000")
         got = [bytes.fromhex(m.group(1)) if m.group(1) != "-" else b"" for e in s.events()
                for m in [re.match(r"t=\d+ B recv 1 1 (\S+)", e)] if m]
@@ -134,6 +151,7 @@ def scenario(args):
                 k = next((i for i in range(min(len(a), len(b))) if a[i] != b[i]), min(len(a), len(b)))
                 bad.append(("reliable-stream", f"received byte stream ({len(a)} bytes) differs from sent ({len(b)} bytes) at offset {k}"))
         return dict(seed=seed, transport=transport, bad=bad, script=s.script, nmsg=len(sent_msgs), model_lines=model_lines,
+                    pressure=pressure, retries=sum(1 for x in s.script if x.startswith("settle 200")),
                     frames=[f.hex() for f in frames_expected] if len(frames_expected) < 6 else None,
                     got_frames=[g.hex() for g in got])
     except simlib.SimDied as e:
@@ -227,6 +245,8 @@ def run(tier, seed):
                                "non-trivial = sessions that delivered at least one message with every oracle satisfied")
             chk.cov["samples"] = [CS[0][:3], [l[:120] for l in res[0]["script"][-6:]]]
             chk.cov["generator_distribution"] = {"transports": kinds, "messages_sent": sum(r["nmsg"] for r in res),
+                                                 "tcp_backpressure_sessions": sum(1 for r in res if r.get("pressure")),
+                                                 "tcp_would_block_retries": sum(r.get("retries", 0) for r in res),
                                                  "copy_ops": sum(len(x) for x in CS), "split_model_cases": len(lines)}
     return conclude(chk, st, diverged, ofail, "kern_drv:copy + sim_drv:C02 transports")
 
